@@ -55,6 +55,18 @@ KEYWORD_LINES = [
 ]
 
 
+# half-typed lists in every statement that carries one
+_LIST_TEMPLATES = ["associate ({L})", "use m, only: {L}", "integer :: {L}", "public :: {L}", "import :: {L}",
+                   "procedure :: {L}", "generic :: g => {L}", "call s({L})", "type(t({L})) :: v", "namelist /n/ {L}",
+                   "common /c/ {L}", "enumerator :: {L}", "final :: {L}", "select case ({L})", "subroutine s({L})",
+                   "function f({L}) result(r)", "interface operator({L})", "data {L} /1/", "external {L}",
+                   "real, dimension({L}) :: x", "#define M({L}) 1", "x = M({L})", "allocate({L})", "print *, {L}",
+                   "type, extends({L}) :: t", "submodule ({L}) s", "module procedure {L}", "do concurrent ({L})"]
+_LIST_FORMS = ["", ",", ", a", "a,", "a,,b", ", a => b", "a => b,", "a =>", "=> b", "(", ")", "a => b, , c => d",
+               "a(,)", ",,", "a b"]
+KEYWORD_LINES += [t.replace("{L}", f) for t in _LIST_TEMPLATES for f in _LIST_FORMS]
+
+
 def plan(tier):
     n_enum = sum(len(model.split_lines(t)) for _, t in gen.corpus_sources())
     if tier == "quick":
@@ -114,6 +126,22 @@ def corrupt(rng, text):
                 j = rng.choice(pos)
                 text = text[:j] + rng.choice(FOLD_TWINS[text[j]]) + text[j + 1:]
         return text
+    if rng.random() < 0.1 and text:
+        # half-typed lists: a name deleted (leaving ', ,' '(,' '=> )' '::' without entity ...), a
+        # separator doubled, an opening or closing bracket dropped
+        import re as _re
+
+        for _ in range(rng.randint(1, 2)):
+            j = rng.randrange(len(ls))
+            toks = list(_re.finditer(r"[A-Za-z_]\w*|[(),]|=>|::", ls[j]))
+            if not toks:
+                continue
+            t = rng.choice(toks)
+            if rng.random() < 0.7:
+                ls[j] = ls[j][:t.start()] + ls[j][t.end():]
+            else:
+                ls[j] = ls[j][:t.end()] + t.group(0) + ls[j][t.end():]
+        return "\n".join(ls)
     r = rng.random()
     if r < 0.15 and text:
         b = bytearray(text.encode("utf-8"))
@@ -167,8 +195,10 @@ def pp_storm(rng):
         elif r < 0.36:
             k = rng.randint(0, 2)
             ls.append(f"#define {n}({','.join(args[:k])}) {rng.choice(bodies)}")
-        elif r < 0.44:
+        elif r < 0.42:
             ls.append(f"#undef {n}")
+        elif r < 0.46:
+            ls.append(f"#include \"{rng.choice(names)}.h\"")
         elif r < 0.58:
             ls.append(rng.choice(["#if ", "#if ", "#elif "]) + rng.choice(conds).format(n=n, m=m))
             depth += 1
@@ -185,7 +215,8 @@ def pp_storm(rng):
                                   f"module m_{n.lower()}", f"end module m_{n.lower()}", f"  real :: {n}", f"  y = {n}",
                                   f"  print *, '{n}', {n}"]))
         else:
-            ls.append(rng.choice(["", "  \\", "! c", f"#include \"{n}.h\"", "#define", "#if", "#undef"]))
+            ls.append(rng.choice(["", "  \\", "! c", f"#include \"{n}.h\"", f"#include \"{m}.h\"", "#define", "#if",
+                                  "#undef"]))
     for _ in range(max(0, depth) if rng.random() < 0.7 else 0):
         ls.append("#endif")
     if rng.random() < 0.3:
@@ -204,7 +235,23 @@ def pp_storm(rng):
     return "\n".join(ls) + "\n"
 
 
+LIFE_EVENTS = ["#define M 1", "#define M 2", "#define M(a) a+1", "#define M(a,b) a", "#undef M", "  x = M", "  y = M(2)",
+               "  z = M(1, 3) + M", "#if M", "#ifdef M", "#if M(1) > 1", "#endif", "#else", '#include "L.h"',
+               '#include "L.h"', "#define N M", "  w = N", "#define M N"]
+
+
+def pp_lifecycle(rng, header=False):
+    """the life of ONE macro name told in short random event sequences, in a document and in the
+    header it includes: defined as object, as function, undefined, used in both ways, tested"""
+    ev = [rng.choice(LIFE_EVENTS) for _ in range(rng.randint(2, 6) if header else rng.randint(4, 10))]
+    if header:
+        return "\n".join(ev) + "\n"
+    return "module life_m\n" + "\n".join(ev) + "\nend module life_m\n"
+
+
 def pick_base(rng):
+    if rng.random() < 0.12:
+        return gen.rand_ident(rng, 3) + rng.choice([".F90", ".F90", ".F", ".fpp"]), pp_lifecycle(rng)
     if rng.random() < 0.2:
         return gen.rand_ident(rng, 3) + rng.choice([".F90", ".F90", ".F", ".fpp", ".F08"]), pp_storm(rng)
     if rng.random() < 0.7:
@@ -403,6 +450,8 @@ def gen_sched(g):
             b.ops.append(gen.did_save(b.path))
             b.queries()
     extra_tree = {}
+    if '"L.h"' in text:
+        extra_tree[f"{ROOT}/L.h"] = pp_lifecycle(rng, header=True)
     if "#include" in text or rng.random() < 0.08:
         # headers the text may #include: plain, with bytes that are not UTF-8, a directory, empty
         for hn in ("A.h", "B.h", "C.h", "X.h", "GE.h", "MAXV.h", "nope.h"):
@@ -414,8 +463,32 @@ def gen_sched(g):
                     b"! caf\xe9 \xff\xfe header\n#define LATIN_" + hn[0].encode() + b" 1\n\x80\x81\n").decode()}
             elif r < 0.7:
                 extra_tree[f"{ROOT}/{hn}/"] = ""
-            elif r < 0.8:
+            elif r < 0.75:
                 extra_tree[f"{ROOT}/{hn}"] = ""
+            elif r < 0.95:
+                # a header with a life of its own: includes other headers, itself or the including
+                # document (once or several times) and redefines the document's macros, object-like
+                # as function-like and back
+                hl = []
+                import re as _re
+
+                # the includer's own macros, so that the header changes their kind under its feet
+                doc_macros = sorted(set(_re.findall(r"#define\s+([A-Za-z_]\w*)", text))) or ["A", "B", "C"]
+                for _ in range(rng.randint(1, 5)):
+                    q = rng.random()
+                    m_ = rng.choice(doc_macros + ["A", "B", "C", "X", "GE", "MAXV"][: max(1, 6 - len(doc_macros))])
+                    if q < 0.45:
+                        tgt = rng.choice(["A.h", "B.h", "C.h", "X.h", hn, hn, name])
+                        hl.append(f'#include "{tgt}"')
+                    elif q < 0.6:
+                        hl.append(f"#define {m_}(n) n + 1")
+                    elif q < 0.75:
+                        hl.append(f"#define {m_} {rng.choice(['1', '2', 'B', ''])}")
+                    elif q < 0.85:
+                        hl.append(f"#undef {m_}")
+                    else:
+                        hl.append(rng.choice([f"#ifndef {m_}", "#endif", f"#if {m_} > 1", "#else"]))
+                extra_tree[f"{ROOT}/{hn}"] = "\n".join(hl) + "\n"
     if name.rsplit(".", 1)[1].isupper() and rng.random() < 0.25:
         # a second preprocessed document that defines / undefines / redefines the same macro names,
         # edited in between (macro tables are shared server-wide)
